@@ -618,7 +618,9 @@ def gen_expr(r, abi, invariant):
     does not depend on the byte order."""
     ptr_bits = abi["ptr"] * 8
     ops = []
-    for _ in range(r.choice([1, 1, 2, 2, 3, 4, 6])):
+    # (now and then an expression of 128 bytes or more: its ULEB128 length
+    # prefix then takes two bytes)
+    for _ in range(r.choice([1, 1, 2, 2, 3, 4, 6, 1, 2, 3, 4, 6, 2, 3, 70, 130])):
         kind = r.choice(["breg", "breg", "bregx", "lit", "reg", "regx", "plus_uconst", "c1", "cleb", "wide", "addr", "nullary", "nullary", "pick", "deref_size", "branch"])
         if kind == "breg":
             ops.append(["breg", r.randint(0, 31), _off(r)])
